@@ -631,10 +631,48 @@ theorem devStopStep_keeps (c : Cfg) (s : Sys) (ok r : Bool) (hb : c.buffered = t
     · exact ⟨rfl, fun _ => rfl⟩
   · exact ⟨rfl, fun _ => rfl⟩
 
+/-- What a failure does to the task's STATE does not depend on the task's criticality. -/
+theorem effect_st_crit (c : Cfg) (k : Kind) (st : St) (a b : Bool) : (effect c k st a).st = (effect c k st b).st := by
+  cases k <;> rfl
+
+theorem drives_effect (c : Cfg) (k : Kind) (st : St) (h : k.drives c st = true) (crit : Bool) :
+    (effect c k st crit).st = some .ERROR := by
+  rw [effect_st_crit c k st crit false]
+  simpa [Kind.drives] using h
+
+/-- Only the TASK_INTERNAL_ERROR row depends on the configuration and on the task's criticality. -/
+theorem effect_cfg_blind (c : Cfg) (k : Kind) (st : St) (crit : Bool) (h : k ≠ .INTERNAL) :
+    effect c k st crit = effect codeCfg k st false := by
+  cases k <;> first | rfl | exact absurd rfl h
+
+/-- A leaf is not both critical and non-critical. -/
+theorem plain_not_crit (f : Forest) (p : List Nat) (h : plainLeafAt f p = true) : critLeafAt f p = false := by
+  fun_induction plainLeafAt f p with
+  | case1 => rfl
+  | case2 crit st su next c => simp only [critLeafAt]; simpa using h
+  | case3 c crit st su next i rest ih => simp only [critLeafAt]; exact ih h
+  | case4 => simp at h
+  | case5 st su kids next rest ih => simp only [critLeafAt]; exact ih h
+  | case6 st su kids next i rest ih => simp only [critLeafAt]; exact ih h
+  | case7 => rfl
+
+/-- The code as it is: every kind of failure but a process that ends with exit status 0 puts
+    the task's role into ERROR, in every state of the environment. -/
+theorem drives_code (k : Kind) (st : St) (h : k.exitZero = false) : k.drives codeCfg st = true := by
+  cases k <;> simp [Kind.exitZero] at h <;> cases st <;> rfl
+
+/-- The code as it is: no failure of a non-critical task requests a transition. -/
+theorem quiet_code (k : Kind) (st : St) : k.quiet codeCfg st false = true := by
+  cases k <;> cases st <;> rfl
+
+/-- For every configuration: only TASK_INTERNAL_ERROR can request a transition. -/
+theorem quiet_of_not_internal (c : Cfg) (k : Kind) (st : St) (crit : Bool) (h : k ≠ .INTERNAL) : k.quiet c st crit = true := by
+  cases k <;> first | rfl | exact absurd rfl h
+
 /-- What the fail step leaves alone. -/
 theorem failOne_frame (c : Cfg) (k : Kind) (s : Sys) (p : List Nat) (r : Bool) :
     (failOne c k s p r).env = s.env ∧ (failOne c k s p r).inflight = s.inflight ∧ (failOne c k s p r).hooks = s.hooks ∧
-    (failOne c k s p r).stopReq = s.stopReq + (if (effect k s.env.st).stop then 1 else 0) ∧
+    (failOne c k s p r).stopReq = s.stopReq + (if (effect c k s.env.st (critLeafAt s.f p)).stop then 1 else 0) ∧
     (failOne c k s p r).updq = s.updq := by
   unfold failOne
   simp only
@@ -665,15 +703,15 @@ theorem failOne_critLeafAt (c : Cfg) (k : Kind) (s : Sys) (q : List Nat) (r : Bo
   simp only
   rw [(notify_frame _ _ _ _).2.1]
   simp only
-  cases (effect k s.env.st).st <;> cases (effect k s.env.st).su <;>
+  cases (effect c k s.env.st (critLeafAt s.f q)).st <;> cases (effect c k s.env.st (critLeafAt s.f q)).su <;>
     simp only [critLeafAt_updStatus, critLeafAt_updState]
 
 /-- Unbuffered channel: where the watcher can be after one fail step of a kind that reports ERROR. -/
 theorem failOne_w (c : Cfg) (k : Kind) (s : Sys) (q : List Nat) (r : Bool) (hb : c.buffered = false)
-    (hk : k.drives s.env.st = true) :
+    (hk : k.drives c s.env.st = true) :
     (s.w ≠ .parked → (failOne c k s q r).w = s.w) ∧
     (s.w = .parked → (failOne c k s q r).w = .parked ∨ (failOne c k s q r).w = .armed) := by
-  have he : (effect k s.env.st).st = some .ERROR := by simpa [Kind.drives] using hk
+  have he := drives_effect c k s.env.st hk
   unfold failOne
   simp only [he]
   refine ⟨fun h => ?_, fun h => ?_⟩
@@ -687,9 +725,9 @@ theorem failOne_w (c : Cfg) (k : Kind) (s : Sys) (q : List Nat) (r : Bool) (hb :
 
 /-- Buffered channel: the failure of a critical task puts ERROR into the watcher's empty channel. -/
 theorem failOne_kept (c : Cfg) (k : Kind) (s : Sys) (p : List Nat) (r : Bool) (hb : c.buffered = true)
-    (hk : k.drives s.env.st = true) (hw : s.w.inLoop = true) (hc : s.chan = none) (hcrit : critLeafAt s.f p = true) :
+    (hk : k.drives c s.env.st = true) (hw : s.w.inLoop = true) (hc : s.chan = none) (hcrit : critLeafAt s.f p = true) :
     (failOne c k s p r).chan = some .ERROR := by
-  have he : (effect k s.env.st).st = some .ERROR := by simpa [Kind.drives] using hk
+  have he := drives_effect c k s.env.st hk
   unfold failOne
   simp only [he, updState_crit_error s.f p hcrit]
   exact notify_kept c _ _ _ hb hw hc
@@ -697,9 +735,9 @@ theorem failOne_kept (c : Cfg) (k : Kind) (s : Sys) (p : List Nat) (r : Bool) (h
 /-- Buffered channel: whatever task fails (kind reporting ERROR), the channel stays as it is or
     gets an ERROR. -/
 theorem failOne_chan (c : Cfg) (k : Kind) (s : Sys) (p : List Nat) (r : Bool) (hb : c.buffered = true)
-    (hk : k.drives s.env.st = true) :
+    (hk : k.drives c s.env.st = true) :
     (failOne c k s p r).chan = s.chan ∨ (failOne c k s p r).chan = some .ERROR := by
-  have he : (effect k s.env.st).st = some .ERROR := by simpa [Kind.drives] using hk
+  have he := drives_effect c k s.env.st hk
   unfold failOne
   simp only [he]
   rcases updState_error_cases s.f p with hn | hn
